@@ -47,6 +47,9 @@ def run(ck):
             [call("cg", "dict", o=ck.rng.choice(OBJ3), sw=ck.rng.choice(SWITCHES)) for _ in range(3)]
         g["watchdog"] = 5
         groups.append(g)
+    for g in scope.p_scope(ck, 10 if q else 11, 2, 4):      # "coarse" universe: many items, few distinct small values
+        if len(g["vals"]) >= 8 and g["k"] >= 2:
+            g = dict(g); g["calls"] = calls_for(g, ("dict", "list"), ilp=False, all_switches=False); g["watchdog"] = 20; groups.append(g)
     groups += witness_groups(ck)
     ck.rule = ("TLC enumerates every bag of <=%d values in 0..%d x k<=%d (P-scope); every partitioner (complete greedy under all "
                "16 switch combinations x 3 objectives) is executed on each in dict / list / names+valueof presentation (distinct names, and names repeated for equal items); plus seeded random, "
